@@ -325,18 +325,18 @@ mutual
       · split
         · refine Spec.bind s_getScope ?_
           intro sc hsc
-          have := s_emit (b := b) (pok_identOrEmpty hsc Scope.kIndex)
+          have := s_emit (b := b) (pok_identOrEmpty hsc (Scope.kIndex ++ loopVarOf args))
           msteps
         · split
           · refine Spec.bind s_getScope ?_
             intro sc hsc
-            have h1 := s_emit (b := b) (pok_identOrEmpty hsc Scope.kIndex)
-            have h2 := s_emit (b := b) (pok_identOrEmpty hsc Scope.kLimit)
+            have h1 := s_emit (b := b) (pok_identOrEmpty hsc (Scope.kIndex ++ loopVarOf args))
+            have h2 := s_emit (b := b) (pok_identOrEmpty hsc (Scope.kLimit ++ loopVarOf args))
             msteps
           · split
             · refine Spec.bind s_getScope ?_
               intro sc hsc
-              exact s_emit (pok_identOrEmpty hsc Scope.kIndex)
+              exact s_emit (pok_identOrEmpty hsc (Scope.kIndex ++ loopVarOf args))
             · exact s_fail
     | .dataRef _ key acc, h => by
       unfold walkExpr
@@ -344,13 +344,18 @@ mutual
       refine Spec.seq s_atOther ?_
       refine Spec.bind s_getScope ?_
       intro sc hsc
-      apply s_visitAccess b acc h.2
-      split
-      · exact AllP.single POk trivial
-      · split
-        · rename_i g hg
-          exact AllP.single POk (lookup_ok hsc hg)
-        · exact AllP.cons POk trivial (AllP.single POk h.1)
+      have hv : SU b (visitAccess sk o acc (if key == b!"ij" then [.fixed b!"opt_ijData"]
+          else match sc.lookup key with
+            | some g => [.ident g]
+            | none => [.fixed b!"opt_data.", .ident key])) := by
+        apply s_visitAccess b acc h.2
+        split
+        · exact AllP.single POk trivial
+        · split
+          · rename_i g hg
+            exact AllP.single POk (lookup_ok hsc hg)
+          · exact AllP.cons POk trivial (AllP.single POk h.1)
+      msteps
     | .not _ a, h => by
       unfold walkExpr
       have := s_walkExpr b a (by simpa [ExprWN] using h)
